@@ -129,6 +129,7 @@ def spaces(tier, seed):
                         for win in ((1, 3) if not quick else (1 + 2 * ((rows + fs + mk) % 2),)):
                             mfi.append({"kind": "mfi", "rows": rows, "cols": cols, "fs": fs, "reg": reg,
                                         "named": named, "mask": mk, "win": win, "seed": seed})
+    mfi += [dict(c, prime_fs=8 - c["fs"]) for c in mfi if (c["rows"], c["cols"]) in ((7, 8), (12, 9))]
     mach = []
     for (rows, cols) in [(6, 7), (9, 8), (52, 9)] if quick else [(6, 7), (9, 8), (52, 9), (8, 103), (51, 52)]:
         for m, c in [("median", {"filter_size": 3}), ("median", {"filter_size": 5}),
@@ -527,6 +528,12 @@ def _run_error(obs, method, ctx):
 def run_mfi(case):
     from mc.drivers import pipeline as P  # pylint: disable=import-outside-toplevel
 
+    if case.get("prime_fs"):
+        # a filter object with ANOTHER filter_size ran earlier in this process (other object, other run): the
+        # case below must not depend on it (class-level or module-level state)
+        prime = dict(case, fs=case["prime_fs"], rows=7, cols=8)
+        prime.pop("prime_fs")
+        run_mfi(prime)
     rows, cols = case["rows"], case["cols"]
     dl, dr = _pair(rows, cols, case["seed"], case["mask"])
     named = case["named"]
@@ -566,7 +573,8 @@ def run_mfi(case):
                      "detail": f"{ctx}: the filter step of the machine and the direct call on the same dataset differ"})
     inv = (before["vm"] & INVALID_MASK) != 0
     nontrivial = bool(inv.any() and (~inv).any() and (case["reg"] or stats.get("changed")))
-    sigs = [f"mfi|{case['fs']}|{case['reg']}|{named}|{_digest(after['conf'], after['vm'])}"] if nontrivial else []
+    sigs = [f"mfi|{case['fs']}|{case['reg']}|{named}|{case.get('prime_fs')}|{_digest(after['conf'], after['vm'])}"] \
+        if nontrivial else []
     return {"n": 2, "sigs": sigs, "viol": _dedup(viol), "trivial": 0 if nontrivial else 2}
 
 
